@@ -23,7 +23,7 @@ from disk_objectstore.container import ObjectType
 from disk_objectstore.exceptions import NotExistent
 from disk_objectstore.utils import Location, chunk_iterator, detect_where_sorted, merge_sorted
 
-from ..common import fresh_dir, pmap, rmtree
+from ..common import fresh_dir, maybe_collect, pmap, rmtree
 from ..rawread import RawState
 from ..report import Violation
 
@@ -97,6 +97,7 @@ def _bulk_case(arg):
             for ln in range(maxlen + 1):
                 for seq in itertools.product(NAMES, repeat=ln):
                     n += 1
+                    maybe_collect(200)
                     req = [KEY[x] for x in seq]
                     distinct = list(dict.fromkeys(seq))
                     tag = f'IN={in_sql} SCAN>{chunk_iter} request {list(seq)}: '
